@@ -3507,6 +3507,16 @@ func (s *ImmuStore) sync() error {
 		return nil
 	}
 
+	// The binary-linking tree is synced on its own threshold and its ResetSize is not durable: a
+	// leaf left on disk by a transaction that was lost in a crash would otherwise survive at the
+	// position of a transaction committed here (OpenWith only trusts the leaves up to the
+	// committed transaction). Make the leaves of the transactions about to be committed durable
+	// before their commit-log entries are written.
+	err = s.aht.Sync()
+	if err != nil {
+		return err
+	}
+
 	// will overwrite partially written and uncommitted data
 	err = s.cLog.SetOffset(int64(s.committedTxID) * int64(s.cLogEntrySize))
 	if err != nil {
